@@ -174,7 +174,10 @@ impl Callable for Access {
                 bail!("Can not access a tuple with: {}", index)
             };
             if let Type::Tuple(mut t) = obj {
-                Ok(t.remove(*index as usize))
+                match usize::try_from(*index) {
+                    Ok(i) if i < t.len() => Ok(t.remove(i)),
+                    _ => bail!("tuple index out of bounds: {}", index),
+                }
             } else {
                 bail!("Can not access type: {}", obj)
             }
@@ -224,7 +227,10 @@ impl Callable for Access {
                 bail!("Can not access a tuple with: {}", index)
             };
             if let Value::Tuple(t) = obj {
-                t[*index as usize].value_of(ctx)
+                match usize::try_from(*index) {
+                    Ok(i) if i < t.len() => t[i].value_of(ctx),
+                    _ => bail!("tuple index out of bounds: {}", index),
+                }
             } else {
                 bail!("Can not access type: {}", obj)
             }
